@@ -3,6 +3,7 @@ mod adaptors;
 mod adframe;
 mod buffered;
 mod bus;
+mod converter;
 mod eof;
 mod fork;
 mod probe;
@@ -20,6 +21,7 @@ fn main() {
         &buffered::BufferedScenario,
         &adaptors::AdaptorsScenario,
         &eof::EofScenario,
+        &converter::ConverterScenario,
     ];
     simcore::cli::main(&scens)
 }
